@@ -130,6 +130,7 @@ class Model:
         # scopes") what a lambda of an earlier eval saw of the scopes of calls in progress was incoherent and was
         # not judged. Since the repair lambdas are dynamically scoped uniformly (C07) and the model judges it.
         self.cross_eval_unspecified = False
+        self.reentry = []           # world cfg 'reentry': what the host function re(i) does (see world.Host.reenter)
 
     # ------------------------------------------------------------------ entry point
     def run(self, tree, names=None, ast_names=None):
@@ -470,7 +471,37 @@ class Model:
         if name == 'keep':
             self.kept.append(args[0] if args else None)
             return args[0] if args else None
+        if name == 're' and self.reentry:
+            return self.reenter(args[0] if args else 0)
         raise Unspec('host function ' + name)
+
+    def reenter(self, i):
+        """The host calls back into the same parser: an evaluation of its own (own scope stack on the given names
+        mapping, own budget, failures swallowed by the host), a parse, or a (partial) name listing."""
+        from . import canon, lang
+        try:
+            spec = self.reentry[int(i) % len(self.reentry)]
+        except Exception:
+            return None
+        api = spec.get('api', 'eval')
+        if api == 'eval':
+            names = self.scopes[1] if spec.get('names') == 'same' else {}
+            saved = (self.steps, self.epoch, self.active_epochs, self.scopes)
+            try:
+                out = self.run(spec['prog'], names=names)
+            finally:
+                self.steps, _, self.active_epochs, self.scopes = saved[0], saved[1], saved[2], saved[3]
+            if out[0] == 'unspec':
+                raise Unspec('re-entrant program: ' + str(out[1]))
+            res = out[1] if out[0] == 'value' else 'inner-failed:' + out[0]
+        elif api == 'parse':
+            res = 'parsed'
+        else:
+            names = lang.names_in(spec['prog'])
+            n = spec.get('consume')
+            res = names if n is None else names[:n]
+        self.log.append(('re', str(i), canon.cdigest(res) if not isinstance(res, str) else res))
+        return res
 
     # ------------------------------------------------------------------ builtins
     def call_builtin(self, name, a):
